@@ -16,7 +16,7 @@ SPEC = {
     "assumptions": ["reference AVM semantics of mulw/addw/divmodw/assert (vlib/prims.py, calibrated by setup gates)",
                     "Python arbitrary-precision integers"],
     "min_evaluations": {"quick": 5000, "thorough": 50000},
-    "must_reach": ["expected_value", "expected_fail_overflow", "expected_fail_quotient"],
+    "must_reach": ["expected_value", "expected_fail_overflow", "expected_fail_quotient", "reuse_compiled_twice", "reuse_used_twice", "reuse_shared_lists"],
 }
 
 B = [0, 1, 2, 3, 2**32 - 1, 2**32, 2**32 + 1, 2**63, 2**64 - 1, 2**64 - 2, 2**16, 10**9, 12345678901234567, 2**63 - 1,
@@ -123,12 +123,56 @@ def check_one(pt, progs, acc, ns, ds, version, variant):
                 "expected": None if exp is None else str(exp), "observed": None if got is None else str(got)})
 
 
+def check_reuse(pt, acc, rng, ns, ds, version):
+    """The same WideRatio object (or the same Python factor lists) used for more than one code generation: compiled twice, used
+    twice in one program, two ratios over one shared list.  Every generation must compute the same exact quotient."""
+    from ..common import h
+    exp, why = expected(ns, ds)
+    how = rng.choice(["compiled_twice", "used_twice", "shared_lists"])
+    nn, nd = len(ns), len(ds)
+    N = [pt.Btoi(pt.Txn.application_args[i]) for i in range(nn)]
+    D = [pt.Btoi(pt.Txn.application_args[nn + i]) for i in range(nd)]
+    args = [x.to_bytes(8, "big") for x in ns + ds]
+    case = {"ns": [str(x) for x in ns], "ds": [str(x) for x in ds], "version": version, "variant": "reuse:" + how}
+    try:
+        if how == "compiled_twice":
+            r = pt.WideRatio(N, D)
+            prog = pt.Seq(pt.Log(pt.Itob(r)), pt.Int(1))
+            pt.compileTeal(prog, pt.Mode.Application, version=version)
+            teal = pt.compileTeal(prog, pt.Mode.Application, version=rng.choice([5, 6, 8, 10]))
+            nlogs = 1
+        elif how == "used_twice":
+            r = pt.WideRatio(N, D)
+            teal = pt.compileTeal(pt.Seq(pt.Log(pt.Itob(r)), pt.Log(pt.Itob(r)), pt.Int(1)), pt.Mode.Application, version=version)
+            nlogs = 2
+        else:
+            r1, r2 = pt.WideRatio(N, D), pt.WideRatio(N, D)
+            teal = pt.compileTeal(pt.Seq(pt.Log(pt.Itob(r1)), pt.Log(pt.Itob(r2)), pt.Int(1)), pt.Mode.Application, version=version)
+            nlogs = 2
+    except Exception as e:
+        acc.evaluations += 1
+        acc.violation("reuse_compile_error", case, "second code generation over the same WideRatio/lists raised %s: %s" % (type(e).__name__, str(e)[:200]))
+        return
+    r = avm.run(avm.parse_any(teal), avm.Ctx(group=[{"ApplicationArgs": args}]))
+    acc.evaluations += 1
+    acc.counters["reuse_" + how] += 1
+    got = [int.from_bytes(l, "big") for l in r.logs] if r.status == "approve" else None
+    want = None if exp is None else [exp] * nlogs
+    if got != want or (exp is None and r.status != "fail"):
+        acc.violation("wrong_result" if exp is not None else "no_failure", case, "expected %s (%s) got %s status=%s err=%s" % (want, why, got, r.status, r.error))
+    elif exp is not None:
+        acc.nontrivial.add(h(case))
+
+
 def run_shard(shard):
     import pyteal as pt
     from ..common import Acc, rng_for, reset_globals
     acc = Acc()
     if "replay" in shard:
         c = shard["replay"]
+        if c["variant"].startswith("reuse"):
+            check_reuse(pt, acc, rng_for(0, "replay"), [int(x) for x in c["ns"]], [int(x) for x in c["ds"]], c["version"])
+            return acc.result()
         check_one(pt, {}, acc, [int(x) for x in c["ns"]], [int(x) for x in c["ds"]], c["version"], c["variant"])
         return acc.result()
     rng = rng_for(shard["seed"], "c16", shard["shard"])
@@ -141,6 +185,9 @@ def run_shard(shard):
         version = rng.choice([5, 6, 7, 8, 9, 10])
         variant = "const" if rng.random() < .08 else "runtime"
         ns, ds = gen_vec(rng, nn, nd)
+        if it % 10 == 0:
+            check_reuse(pt, acc, rng, ns, ds, version)
+            continue
         check_one(pt, progs, acc, ns, ds, version, variant)
     acc.counters["programs_compiled"] = len(progs)
     return acc.result()
